@@ -24,6 +24,7 @@ type Outcome struct {
 	V    Val    `json:"v"`
 	Msg  string `json:"msg,omitempty"`
 	Site string `json:"site,omitempty"`
+	Nil  bool   `json:"nil,omitempty"` // the expression evaluated to no value at all (Go nil)
 }
 
 func (o Outcome) String() string {
@@ -177,7 +178,7 @@ func (ev *evaluator) eval(src string, a, b *Val, cache bool) (out Outcome) {
 		}
 		return Outcome{T: "value", V: fromData(rv)}
 	}
-	return Outcome{T: "value", V: fromData(v)}
+	return Outcome{T: "value", V: fromData(v), Nil: v == nil}
 }
 
 func (ev *evaluator) scriptValue(expr string) data.Value {
